@@ -10,6 +10,7 @@
 package c12
 
 import (
+	"bytes"
 	"fmt"
 	"os"
 	"sync"
@@ -111,6 +112,21 @@ func Run(ctx *Ctx, sc *Scn) (evs []trace.Ev, note string) {
 	if err != nil {
 		return nil, "host start: " + err.Error()
 	}
+	// two plain hosts (no Unicode core, no explicit width: a cluster is measured per code point there), one the
+	// emulator is drawn into, one the cells of the emulator's snapshot are set in with their own widths: "drawing
+	// the emulator into a host window yields those same cells" whatever the host's way of measuring text is, so
+	// both Vaxis write the same bytes (what a plain terminal displays of them is not judged)
+	plainCaps := responder.FromMask(1<<8|1<<9, false)
+	plainA, err := sess.Start(sess.Config{Caps: plainCaps, Cols: cols, Rows: rows})
+	if err != nil {
+		return nil, "host start: " + err.Error()
+	}
+	plainB, err := sess.Start(sess.Config{Caps: plainCaps, Cols: cols, Rows: rows})
+	if err != nil {
+		return nil, "host start: " + err.Error()
+	}
+	plainA.Con.Take()
+	plainB.Con.Take()
 	// emulator with a pipe for its replies
 	pr, pw, err := os.Pipe()
 	if err != nil {
@@ -257,6 +273,40 @@ func Run(ctx *Ctx, sc *Scn) (evs []trace.Ev, note string) {
 		host.Vx.Render()
 		evs = append(evs, wrapHost(termPrints(hcv.Feed(host.Con.Take())))...)
 		evs = append(evs, trace.Ev{"ev": "hframe", "app": app, "cur": cr, "rgb": rgbcap, "su": false})
+		wa := plainA.Vx.Window()
+		plainA.Vx.HideCursor()
+		vt.Draw(wa)
+		plainA.Vx.Render()
+		wb := plainB.Vx.Window()
+		plainB.Vx.HideCursor()
+		for r, line := range st.Active {
+			for c := 0; c < len(line); {
+				cl := line[c]
+				g, w := cl.Grapheme, cl.Width
+				if g == "" {
+					g = " "
+				}
+				if c+w > len(line) { // a wide character in the last column (the emulator wraps it: not reached)
+					g, w = " ", 1
+				}
+				wb.SetCell(c, r, vaxis.Cell{Character: vaxis.Character{Grapheme: g, Width: w}, Style: cl.Style})
+				if w == 0 {
+					w = 1
+				}
+				c += w
+			}
+		}
+		if st.DECTCEM {
+			wb.ShowCursor(st.Cursor.Col, st.Cursor.Row, vaxis.CursorStyle(st.CursorStyle))
+		}
+		plainB.Vx.Render()
+		ba, bb := plainA.Con.Take(), plainB.Con.Take()
+		at := -1
+		if !bytes.Equal(ba, bb) {
+			for at = 0; at < len(ba) && at < len(bb) && ba[at] == bb[at]; at++ {
+			}
+		}
+		evs = append(evs, trace.Ev{"ev": "hplain", "same": at < 0, "at": at})
 	}
 	done := make(chan struct{})
 	go func() { vx.Close(); close(done) }()
@@ -266,6 +316,8 @@ func Run(ctx *Ctx, sc *Scn) (evs []trace.Ev, note string) {
 		note += " inner Close did not return"
 	}
 	host.Vx.Close()
+	plainA.Vx.Close()
+	plainB.Vx.Close()
 	pw.Close()
 	pr.Close()
 	return evs, note
